@@ -8,13 +8,13 @@ Local Open Scope Z_scope.
 Definition reason (p : pstate) : option err :=
   match p with
   | PMissing => Some EDown | PShutdown => Some EShutdown | PNoConn => Some ENoConn | PBusy => Some EBusy
-  | PFail => Some EBorrowFail | PSendFail => Some ESendFail | PHealthy => None
+  | PFail => Some EBorrowFail | PSendFail => Some ESendFail | PHealthy => None | PNoConnSlow => Some ENoConn
   end.
 
 Lemma query_eq s h m c :
   query s h m c = match reason (pool_of s h) with
-                  | Some e => (set_err s h e, [ErrSet h e], false)
-                  | None => (add_attempt s h (is_prepare m), [Sent h m c], true)
+                  | Some e => (set_err (touch s (pool_of s h)) h e, [ErrSet h e], false)
+                  | None => (add_attempt (touch s (pool_of s h)) h (is_prepare m), [Sent h m c], true)
                   end.
 Proof. unfold query. destruct (pool_of s h); reflexivity. Qed.
 
@@ -139,8 +139,18 @@ Inductive walked (s : state) (p : list host) (b : bool) (s' : state) (ev : list 
     (Hcons : consumed s' = consumed s ++ p)
     (Hev : ev = map (fun x => ErrSet x (match reason (pool_of s x) with Some e => e | None => EDown end)) p)
     (Hatt : attempts s' = attempts s)
-    (Hexc : fin_exc s' = if b && negb (completed s) then Some (XNoHost (errors s')) else fin_exc s)
-    (Harm : spec_armed s' = if b then false else spec_armed s).
+    (Hexc : fin_exc s' = if b && negb (completed s) then Some XNoHost else fin_exc s)
+    (Harm : spec_armed s' = if b then false else spec_armed s)
+| walked_timeout (sk : list host) (rest : list host)      (* the client timeout elapsed while skipping: _on_timeout(), no NoHostAvailable *)
+    (Hp : p = sk ++ rest) (Hne : sk <> [])
+    (Hsk : Forall (fun x => pool_of s x <> PHealthy) sk)
+    (Hplan : plan s' = rest)
+    (Hcons : consumed s' = consumed s ++ sk)
+    (Hev : ev = map (fun x => ErrSet x (match reason (pool_of s x) with Some e => e | None => EDown end)) sk)
+    (Hatt : attempts s' = attempts s)
+    (Hel : elapsed s' = true)
+    (Hexc : fin_exc s' = if borrowed s' && negb (completed s) then Some XTimeout else fin_exc s)
+    (Harm : spec_armed s' = if borrowed s' then false else spec_armed s).
 
 (* fields a walk never touches, and how it changes the error map *)
 Record walk_frame (s s' : state) : Prop := {
@@ -152,55 +162,97 @@ Record walk_frame (s s' : state) : Prop := {
   wf_res : fin_res s' = fin_res s;
   wf_left : spec_left s' = spec_left s;
   wf_ks : conn_ks s' = conn_ks s;
-  wf_page : page_no s' = page_no s
+  wf_page : page_no s' = page_no s;
+  wf_el : elapsed s = true -> elapsed s' = true
 }.
 
 Lemma pool_of_ext s1 s2 h : pools s1 = pools s2 -> pool_of s1 h = pool_of s2 h.
 Proof. unfold pool_of. intros ->. reflexivity. Qed.
 
+Lemma on_timeout_same s : (borrowed s = true /\ same_but_outcome s (on_timeout s)) \/ (borrowed s = false /\ on_timeout s = s).
+Proof.
+  unfold on_timeout. destruct (borrowed s) eqn:B.
+  - left. split; [reflexivity|apply fail_with_same].
+  - right. split; reflexivity.
+Qed.
+
+Lemma on_timeout_exc s : fin_exc (on_timeout s) = (if borrowed s && negb (completed s) then Some XTimeout else fin_exc s)
+  /\ fin_res (on_timeout s) = fin_res s /\ elapsed (on_timeout s) = elapsed s /\ borrowed (on_timeout s) = borrowed s.
+Proof.
+  unfold on_timeout, fail_with. destruct (borrowed s) eqn:B; cbn [andb]; [|repeat split; auto].
+  destruct (completed s); cbn; repeat split; auto.
+Qed.
+
 Lemma walk_walked : forall p s b s' ev, walk s p b = (s', ev) -> walked s p b s' ev.
 Proof.
   induction p as [|h rest IH]; intros s b s' ev H.
   - cbn in H. inversion H; subst; clear H.
-    pose proof (fail_with_same s (XNoHost (errors s))) as F.
-    pose proof (fail_with_exc s (XNoHost (errors s))) as [Fe Fr].
+    pose proof (fail_with_same s XNoHost) as F.
+    pose proof (fail_with_exc s XNoHost) as [Fe Fr].
     apply walked_exhausted.
     + constructor.
     + destruct b; [apply F|reflexivity].
     + rewrite app_nil_r. destruct b; [apply F|reflexivity].
     + reflexivity.
     + destruct b; [apply F|reflexivity].
-    + destruct b; cbn [andb]; [|reflexivity]. rewrite Fe, (sbo_errors _ _ F). destruct (completed s); reflexivity.
+    + destruct b; cbn [andb]; [|reflexivity]. rewrite Fe. destruct (completed s); reflexivity.
     + destruct b; [apply F|reflexivity].
   - cbn [walk] in H. rewrite query_eq in H.
     assert (Hpo : pool_of (take_host s h rest) h = pool_of s h) by reflexivity.
     rewrite Hpo in H.
     destruct (reason (pool_of s h)) as [e|] eqn:R.
-    + destruct (walk (set_err (take_host s h rest) h e) rest b) as [s2 ev2] eqn:W.
-      inversion H; subst; clear H.
-      apply IH in W.
-      assert (Hpe : forall x, pool_of (set_err (take_host s h rest) h e) x = pool_of s x) by reflexivity.
+    + set (s1 := set_err (touch (take_host s h rest) (pool_of s h)) h e) in *.
+      assert (Hpe : forall x, pool_of s1 x = pool_of s x) by reflexivity.
       assert (Hbad : pool_of s h <> PHealthy).
       { intros E. rewrite E in R. discriminate. }
-      destruct W as [sk h' rest' Hp Hsk Hh Hplan Hcons Hev Hatt Hexc Harm | Hsk Hplan Hcons Hev Hatt Hexc Harm].
-      * apply (walked_sent _ _ _ _ _ (h :: sk) h' rest').
-        -- rewrite Hp. reflexivity.
-        -- constructor; [assumption|]. eapply Forall_impl; [|exact Hsk]. intros a Ha. rewrite <- Hpe. exact Ha.
-        -- rewrite <- Hpe. exact Hh.
-        -- exact Hplan.
-        -- rewrite Hcons. cbn [consumed set_err take_host]. rewrite <- !app_assoc. reflexivity.
-        -- rewrite Hev. cbn [map app]. rewrite R. f_equal.
-        -- exact Hatt.
-        -- exact Hexc.
-        -- exact Harm.
-      * apply walked_exhausted.
-        -- constructor; [assumption|]. eapply Forall_impl; [|exact Hsk]. intros a Ha. rewrite <- Hpe. exact Ha.
-        -- rewrite Hplan. destruct rest; reflexivity.
-        -- rewrite Hcons. cbn [consumed set_err take_host]. rewrite <- app_assoc. reflexivity.
-        -- rewrite Hev. cbn [map]. rewrite R. reflexivity.
-        -- exact Hatt.
-        -- exact Hexc.
-        -- exact Harm.
+      destruct (elapsed s1) eqn:El.
+      * inversion H; subst; clear H.
+        destruct (on_timeout_exc s1) as (Oe & Or & Oel & Ob).
+        apply (walked_timeout _ _ _ _ _ [h] rest).
+        -- reflexivity.
+        -- discriminate.
+        -- constructor; [assumption|constructor].
+        -- destruct (on_timeout_same s1) as [[_ F]|[_ E]]; [rewrite (sbo_plan _ _ F)|rewrite E]; reflexivity.
+        -- destruct (on_timeout_same s1) as [[_ F]|[_ E]]; [rewrite (sbo_cons _ _ F)|rewrite E]; reflexivity.
+        -- cbn [map]. rewrite R. reflexivity.
+        -- destruct (on_timeout_same s1) as [[_ F]|[_ E]]; [rewrite (sbo_att _ _ F)|rewrite E]; reflexivity.
+        -- rewrite Oel. exact El.
+        -- rewrite Oe, Ob. reflexivity.
+        -- rewrite Ob. destruct (on_timeout_same s1) as [[B F]|[B E]]; rewrite B; [apply F|rewrite E; reflexivity].
+      * destruct (walk s1 rest b) as [s2 ev2] eqn:W.
+        inversion H; subst; clear H.
+        apply IH in W.
+        destruct W as [sk h' rest' Hp Hsk Hh Hplan Hcons Hev Hatt Hexc Harm | Hsk Hplan Hcons Hev Hatt Hexc Harm
+                      | sk rest' Hp Hne Hsk Hplan Hcons Hev Hatt Hel Hexc Harm].
+        -- apply (walked_sent _ _ _ _ _ (h :: sk) h' rest').
+           ++ rewrite Hp. reflexivity.
+           ++ constructor; [assumption|]. eapply Forall_impl; [|exact Hsk]. intros a Ha. rewrite <- Hpe. exact Ha.
+           ++ rewrite <- Hpe. exact Hh.
+           ++ exact Hplan.
+           ++ rewrite Hcons. unfold s1. cbn [consumed set_err take_host touch]. rewrite <- !app_assoc. reflexivity.
+           ++ rewrite Hev. cbn [map app]. rewrite R. f_equal.
+           ++ exact Hatt.
+           ++ exact Hexc.
+           ++ exact Harm.
+        -- apply walked_exhausted.
+           ++ constructor; [assumption|]. eapply Forall_impl; [|exact Hsk]. intros a Ha. rewrite <- Hpe. exact Ha.
+           ++ rewrite Hplan. destruct rest; reflexivity.
+           ++ rewrite Hcons. unfold s1. cbn [consumed set_err take_host touch]. rewrite <- app_assoc. reflexivity.
+           ++ rewrite Hev. cbn [map]. rewrite R. reflexivity.
+           ++ exact Hatt.
+           ++ exact Hexc.
+           ++ exact Harm.
+        -- apply (walked_timeout _ _ _ _ _ (h :: sk) rest').
+           ++ rewrite Hp. reflexivity.
+           ++ discriminate.
+           ++ constructor; [assumption|]. eapply Forall_impl; [|exact Hsk]. intros a Ha. rewrite <- Hpe. exact Ha.
+           ++ exact Hplan.
+           ++ rewrite Hcons. unfold s1. cbn [consumed set_err take_host touch]. rewrite <- app_assoc. reflexivity.
+           ++ rewrite Hev. cbn [map]. rewrite R. reflexivity.
+           ++ exact Hatt.
+           ++ exact Hel.
+           ++ exact Hexc.
+           ++ exact Harm.
     + inversion H; subst; clear H.
       apply (walked_sent _ _ _ _ _ [] h rest); try reflexivity.
       * constructor.
@@ -210,15 +262,26 @@ Qed.
 Lemma walk_frame_ok : forall p s b s' ev, walk s p b = (s', ev) -> walk_frame s s'.
 Proof.
   induction p as [|h rest IH]; intros s b s' ev H.
-  - cbn in H. inversion H; subst. destruct b; [|constructor; reflexivity].
-    pose proof (fail_with_same s (XNoHost (errors s))) as F. pose proof (fail_with_exc s (XNoHost (errors s))) as [_ Fr].
-    destruct F. constructor; assumption.
+  - cbn in H. inversion H; subst. destruct b; [|constructor; auto].
+    pose proof (fail_with_same s XNoHost) as F. pose proof (fail_with_exc s XNoHost) as [_ Fr].
+    destruct F. constructor; try assumption. unfold fail_with. destruct (completed s); auto.
   - cbn [walk] in H. rewrite query_eq in H.
     destruct (reason (pool_of (take_host s h rest) h)) as [e|].
-    + destruct (walk (set_err (take_host s h rest) h e) rest b) as [s2 ev2] eqn:W.
-      inversion H; subst; clear H. apply IH in W. destruct W. constructor; cbn in *; congruence.
-    + inversion H; subst. constructor; reflexivity.
+    + set (s1 := set_err (touch (take_host s h rest) (pool_of (take_host s h rest) h)) h e) in *.
+      assert (El1 : elapsed s = true -> elapsed s1 = true) by (intros E; unfold s1; cbn; rewrite E; reflexivity).
+      destruct (elapsed s1) eqn:El.
+      * inversion H; subst; clear H. destruct (on_timeout_exc s1) as (_ & Or & Oel & _).
+        destruct (on_timeout_same s1) as [[_ F]|[_ E]].
+        -- destruct F. constructor; try (unfold s1 in *; cbn in *; congruence). all: intros _; rewrite Oel; exact El.
+        -- rewrite E. constructor; try reflexivity. all: intros _; exact El.
+      * destruct (walk s1 rest b) as [s2 ev2] eqn:W.
+        inversion H; subst; clear H. apply IH in W. destruct W.
+        constructor; try (unfold s1 in *; cbn in *; congruence). all: intros E; apply El1 in E; congruence.
+    + inversion H; subst. constructor; try reflexivity. all: cbn; intros ->; reflexivity.
 Qed.
+
+Lemma on_timeout_errors s : errors (on_timeout s) = errors s.
+Proof. destruct (on_timeout_same s) as [[_ F]|[_ E]]; [apply F|rewrite E; reflexivity]. Qed.
 
 (* error map after a walk: old keys stay, every skipped host gets its reason *)
 Lemma walk_errors_keys : forall p s b s' ev, walk s p b = (s', ev) ->
@@ -226,12 +289,16 @@ Lemma walk_errors_keys : forall p s b s' ev, walk s p b = (s', ev) ->
                                                                          (filter (fun e => match e with ErrSet _ _ => true | _ => false end) ev)).
 Proof.
   induction p as [|h rest IH]; intros s b s' ev H x.
-  - cbn in H. inversion H; subst. destruct b; [rewrite (sbo_errors _ _ (fail_with_same s (XNoHost (errors s))))|]; cbn; tauto.
+  - cbn in H. inversion H; subst. destruct b; [rewrite (sbo_errors _ _ (fail_with_same s XNoHost))|]; cbn; tauto.
   - cbn [walk] in H. rewrite query_eq in H.
     destruct (reason (pool_of (take_host s h rest) h)) as [e|].
-    + destruct (walk (set_err (take_host s h rest) h e) rest b) as [s2 ev2] eqn:W.
-      inversion H; subst; clear H. rewrite (IH _ _ _ _ W). cbn [errors set_err take_host app filter map].
-      rewrite keys_upd. cbn. intuition congruence.
+    + set (s1 := set_err (touch (take_host s h rest) (pool_of (take_host s h rest) h)) h e) in *.
+      destruct (elapsed s1).
+      * inversion H; subst; clear H. rewrite on_timeout_errors. unfold s1. cbn [errors set_err take_host touch app filter map].
+        rewrite keys_upd. cbn. intuition congruence.
+      * destruct (walk s1 rest b) as [s2 ev2] eqn:W.
+        inversion H; subst; clear H. rewrite (IH _ _ _ _ W). unfold s1. cbn [errors set_err take_host touch app filter map].
+        rewrite keys_upd. cbn. intuition congruence.
     + inversion H; subst. cbn. intuition congruence.
 Qed.
 
@@ -253,13 +320,18 @@ Lemma walk_lookup_frame : forall p s b s' ev x, walk s p b = (s', ev) -> errset_
   lookup (errors s') x = lookup (errors s) x.
 Proof.
   induction p as [|h rest IH]; intros s b s' ev x H Hn.
-  - cbn in H. inversion H; subst. destruct b; [rewrite (sbo_errors _ _ (fail_with_same s (XNoHost (errors s))))|]; reflexivity.
+  - cbn in H. inversion H; subst. destruct b; [rewrite (sbo_errors _ _ (fail_with_same s XNoHost))|]; reflexivity.
   - cbn [walk] in H. rewrite query_eq in H.
     destruct (reason (pool_of (take_host s h rest) h)) as [e|].
-    + destruct (walk (set_err (take_host s h rest) h e) rest b) as [s2 ev2] eqn:W.
-      inversion H; subst; clear H. cbn in Hn. apply orb_false_iff in Hn. destruct Hn as [Hx Hn].
-      rewrite (IH _ _ _ _ _ W Hn). cbn [errors set_err take_host].
-      apply lookup_upd_other. intros ->. rewrite Z.eqb_refl in Hx. discriminate.
+    + set (s1 := set_err (touch (take_host s h rest) (pool_of (take_host s h rest) h)) h e) in *.
+      destruct (elapsed s1).
+      * inversion H; subst; clear H. cbn in Hn. apply orb_false_iff in Hn. destruct Hn as [Hx Hn].
+        rewrite on_timeout_errors. unfold s1. cbn [errors set_err take_host touch].
+        apply lookup_upd_other. intros ->. rewrite Z.eqb_refl in Hx. discriminate.
+      * destruct (walk s1 rest b) as [s2 ev2] eqn:W.
+        inversion H; subst; clear H. cbn in Hn. apply orb_false_iff in Hn. destruct Hn as [Hx Hn].
+        rewrite (IH _ _ _ _ _ W Hn). unfold s1. cbn [errors set_err take_host touch].
+        apply lookup_upd_other. intros ->. rewrite Z.eqb_refl in Hx. discriminate.
     + inversion H; subst. reflexivity.
 Qed.
 
@@ -271,14 +343,18 @@ Proof.
   - cbn [walk] in H. rewrite query_eq in H.
     assert (Hpo : pool_of (take_host s h rest) h = pool_of s h) by reflexivity. rewrite Hpo in H.
     destruct (reason (pool_of s h)) as [e|] eqn:R.
-    + destruct (walk (set_err (take_host s h rest) h e) rest b) as [s2 ev2] eqn:W.
-      inversion H; subst; clear H.
-      destruct (errset_for x ev2) eqn:E2.
-      * rewrite (IH _ _ _ _ _ W E2). reflexivity.
-      * change (errset_for x (ErrSet h e :: ev2)) with ((h =? x) || errset_for x ev2) in Hy.
-        rewrite E2, orb_false_r in Hy. apply Z.eqb_eq in Hy. subst x.
-        rewrite (walk_lookup_frame _ _ _ _ _ _ W E2). cbn [errors set_err take_host].
-        rewrite lookup_upd_same. symmetry. exact R.
+    + set (s1 := set_err (touch (take_host s h rest) (pool_of s h)) h e) in *.
+      destruct (elapsed s1).
+      * inversion H; subst; clear H. cbn in Hy. rewrite orb_false_r in Hy. apply Z.eqb_eq in Hy. subst x.
+        rewrite on_timeout_errors. unfold s1. cbn [errors set_err take_host touch]. rewrite lookup_upd_same. symmetry. exact R.
+      * destruct (walk s1 rest b) as [s2 ev2] eqn:W.
+        inversion H; subst; clear H.
+        destruct (errset_for x ev2) eqn:E2.
+        -- rewrite (IH _ _ _ _ _ W E2). reflexivity.
+        -- change (errset_for x (ErrSet h e :: ev2)) with ((h =? x) || errset_for x ev2) in Hy.
+           rewrite E2, orb_false_r in Hy. apply Z.eqb_eq in Hy. subst x.
+           rewrite (walk_lookup_frame _ _ _ _ _ _ W E2). unfold s1. cbn [errors set_err take_host touch].
+           rewrite lookup_upd_same. symmetry. exact R.
     + inversion H; subst. cbn in Hy. discriminate.
 Qed.
 
@@ -310,7 +386,7 @@ Lemma query_hosts s h m c s' ev ok (X : host -> Prop) :
 Proof.
   rewrite query_eq. intros H Xh A x Hx. apply hosts_of_in in Hx.
   destruct (reason (pool_of s h)); inversion H; subst; clear H;
-    cbn [attempts queue errors set_err add_attempt sent_hosts flat_map app] in Hx.
+    cbn [attempts queue errors set_err add_attempt touch sent_hosts flat_map app] in Hx.
   - rewrite keys_upd in Hx. destruct Hx as [Hx|[Hx|[[->|Hx]|[]]]]; auto; apply A, hosts_of_in; auto.
   - rewrite map_app, in_app_iff in Hx. cbn in Hx.
     destruct Hx as [[Hx|[<-|[]]]|[Hx|[Hx|[<-|[]]]]]; auto; apply A, hosts_of_in; auto.
@@ -324,7 +400,8 @@ Proof.
   pose proof (walk_errors_keys _ _ _ _ _ W x) as K.
   assert (Hq : In x (map task_host (queue s')) -> X x).
   { rewrite (wf_queue _ _ F). intros Hq. apply A, hosts_of_in. auto. }
-  destruct WW as [sk h rest Hp Hsk Hh Hplan Hcons Hev Hatt Hexc Harm | Hsk Hplan Hcons Hev Hatt Hexc Harm].
+  destruct WW as [sk h rest Hp Hsk Hh Hplan Hcons Hev Hatt Hexc Harm | Hsk Hplan Hcons Hev Hatt Hexc Harm
+                 | sk rest Hp Hne Hsk Hplan Hcons Hev Hatt Hel Hexc Harm].
   - assert (Csk : forall y, In y sk -> X y).
     { intros y Hy. apply C. rewrite Hcons, !in_app_iff. auto. }
     assert (Ch : X h) by (apply C; rewrite Hcons, !in_app_iff; cbn; auto).
@@ -346,6 +423,14 @@ Proof.
       rewrite Hev in Hx. apply in_map_iff in Hx. destruct Hx as (e & <- & He). apply filter_In in He.
       destruct He as [He Hf]. apply in_map_iff in He. destruct He as (y & <- & Hy). auto.
     + exfalso. rewrite Hev in Hx. clear -Hx. induction p; cbn in Hx; auto.
+  - assert (Cp : forall y, In y sk -> X y).
+    { intros y Hy. apply C. rewrite Hcons, in_app_iff. auto. }
+    destruct Hx as [Hx|[Hx|[Hx|Hx]]]; auto.
+    + rewrite Hatt in Hx. apply A, hosts_of_in. auto.
+    + apply K in Hx. destruct Hx as [Hx|Hx]; [apply A, hosts_of_in; auto|].
+      rewrite Hev in Hx. apply in_map_iff in Hx. destruct Hx as (e & <- & He). apply filter_In in He.
+      destruct He as [He Hf]. apply in_map_iff in He. destruct He as (y & <- & Hy). auto.
+    + exfalso. rewrite Hev in Hx. clear -Hx. induction sk; cbn in Hx; auto.
 Qed.
 
 (* plan bookkeeping of one send_request *)
@@ -389,13 +474,16 @@ Qed.
 Lemma send_request_move s b s' ev : send_request s b = (s', ev) -> plan_move s s' ev.
 Proof.
   unfold send_request. intros W. apply walk_walked in W.
-  destruct W as [sk h rest Hp Hsk Hh Hplan Hcons Hev Hatt Hexc Harm | Hsk Hplan Hcons Hev Hatt Hexc Harm].
+  destruct W as [sk h rest Hp Hsk Hh Hplan Hcons Hev Hatt Hexc Harm | Hsk Hplan Hcons Hev Hatt Hexc Harm
+                | sk rest Hp Hne Hsk Hplan Hcons Hev Hatt Hel Hexc Harm].
   - apply (Build_plan_move _ _ _ (sk ++ [h])); [exact Hcons|rewrite Hp, Hplan, <- app_assoc; reflexivity|].
     rewrite Hev, plan_sends_app, plan_sends_errsets. cbn.
     apply (subseq_app [] sk [h] [h]); [apply subseq_nil_l|apply subseq_refl].
   - apply (Build_plan_move _ _ _ (plan s)); [exact Hcons| |].
     + rewrite Hplan. destruct (plan s); [reflexivity|rewrite app_nil_r; reflexivity].
     + rewrite Hev, plan_sends_errsets. apply subseq_nil_l.
+  - apply (Build_plan_move _ _ _ sk); [exact Hcons|rewrite Hp, Hplan; reflexivity|].
+    rewrite Hev, plan_sends_errsets. apply subseq_nil_l.
 Qed.
 
 Lemma plan_move_trans s1 s2 s3 ev1 ev2 : plan_move s1 s2 ev1 -> plan_move s2 s3 ev2 -> plan_move s1 s3 (ev1 ++ ev2).
